@@ -30,7 +30,8 @@ CONSTANTS Names,         \* the family's variable names, e.g. {"a"} or {"a","b"}
           GlobalSets,    \* which global layers bind every name: a set of subsets of LayerSet
           NilVals,       \* BOOLEAN: binders may also bind nil (a binding to nil still ends the lookup)
           Interrupts,    \* BOOLEAN: break / continue inside loops
-          Leaves         \* BOOLEAN: one shared partial `leaf` (it only reads every name) may be included / rendered any number of times
+          Leaves,        \* BOOLEAN: one shared partial `leaf` (it only reads every name) may be included / rendered any number of times
+          OnlyOps        \* restriction of the family to these step kinds ({} = no restriction): deeper programs of a narrow shape
 
 LayerSet == {"rargs", "matter", "tglobals", "eglobals"}
 LayerOrder == <<"rargs", "matter", "tglobals", "eglobals">>
@@ -90,7 +91,9 @@ Exempt(fs, op, m) == {n \in Names : (\E j \in 1..Len(fs) : fs[j].n = n /\ fs[j].
                                      \/ (\E i \in 1..Len(prog) : prog[i].op \in AssignOps /\ prog[i].n = n)
                                      \/ (op \in AssignOps /\ m = n)}
 Rec(op, n, v, o) == [op |-> op, n |-> n, v |-> v, reads |-> o.reads, fl |-> o.fl, pl |-> o.pl, ex |-> Exempt(o.fs, op, n)]
-Step(rec) == prog' = Append(prog, rec)
+OpsNoFilter == {}
+OpsLeafLoops == {"for", "tablerow", "with", "incleaf", "close"}        \* the shared partial reached from inside and after binding blocks
+Step(rec) == (OnlyOps = {} \/ rec.op \in OnlyOps) /\ prog' = Append(prog, rec)
 K == Len(prog) + 1                       \* index of the step being taken: makes every bound value unique
 Val(tag) == tag \o ToString(K)
 Vals(tag) == IF NilVals THEN {Val(tag), Nil} ELSE {Val(tag)}
